@@ -207,6 +207,12 @@ def upper_safe(s):
     return all(ord(c) < 128 or c.upper() == c for c in s)
 
 
+def normal_pred(p):
+    """a predicate in the conventional form (the oracle's own statement, not predicate.normalize): lower
+    case (str.lower, not casefold), no quotes, no _rel suffix"""
+    return bool(p) and p == p.lower() and p[0] not in "\"'" and not p.lower().endswith("_rel")
+
+
 def lnk_kind(l):
     return "none" if l is None or l.type == Lnk.UNSPECIFIED else \
         {Lnk.CHARSPAN: "charspan", Lnk.CHARTSPAN: "chartspan", Lnk.TOKENS: "tokens", Lnk.EDGE: "edge"}[l.type]
@@ -277,7 +283,7 @@ def in_domain(codec, d):
     if codec == "x":
         for n in d.nodes:
             p = n.predicate
-            if predicate.normalize(p) != p or p.strip() != p:
+            if not normal_pred(p) or p.strip() != p:
                 return False
             if any(k.lower().upper() != k for k in n.properties):
                 return False
@@ -463,7 +469,8 @@ PROP_POOL = [("TENSE", ["past", "pres", "untensed"]), ("NUM", ["sg", "pl"]), ("P
 ODD_PROPS = [("tense", "past"), ("TENSE", "PAST"), ("Tense", "Past"), ("cvarsort", "x"), ("CVARSORT", "x"),
              ("A B", "c"), ("A", "b c"), ("É", "é"), ("A=B", "c"), ("INSTANCE", "x"), ("LNK", "x"), ("CARG", "x"),
              ("1", "2"), ("K", ""), ("SF", "STRASSE"), ("SF", "ΟΔΟΣ"), ("SF", "İ"), ("STRAßE", "x"), ("ǅ", "ǅ")]
-ROLES = ["ARG1", "ARG2", "ARG3", "RSTR", "L-INDEX", "R-HNDL", "MOD", "ARG", "ARG1", "ARGΣ", "ＡＲＧ１", "ARG-日"]
+ROLES = ["ARG1", "ARG2", "ARG3", "RSTR", "L-INDEX", "R-HNDL", "MOD", "ARG", "ARG1", "ARGΣ", "ＡＲＧ１", "ARG-日", "ARGẞ", "İX",
+         "ϴ1"]
 ODD_ROLES = [None, "", "arg1", "A B", "Arg1", ":X", "1", "A/B", "straße", "ARGß", "ﬁ", "argς"]
 TEXT_PIECES = ["a", "b", "Kim", " ", "\"", "\\", "\\\\", "\\\"", "'", "é", "日本", "\U0001F600", "<", ">", "&", "(", ")",
                ":", ";", "=", "[", "]", "{", "}", "/", "#", "@", "-1", "0", "&amp;", " ", "x y", "\"\"", "\\n",
@@ -1331,8 +1338,31 @@ class C02(Check):
     def shrink(self, case, still_fails):
         if case.get("kind") != "rt":
             return case
+        import time as _time
+        deadline = _time.time() + 12.0      # shrinking is a convenience: bounded
+        raw_fails = still_fails
+
+        def still_fails(c):
+            if _time.time() > deadline:
+                return False
+            try:
+                return raw_fails(c)
+            except Exception:
+                return False
         cur = copy.deepcopy(case)
         cur.pop("name", None)
+        # halves first (long documents)
+        while len(cur["ds"]) > 3 and _time.time() < deadline:
+            h = len(cur["ds"]) // 2
+            for part in (cur["ds"][:h], cur["ds"][h:]):
+                c = dict(cur, ds=copy.deepcopy(part))
+                if still_fails(c):
+                    cur = c
+                    break
+            else:
+                break
+        if len(cur["ds"]) > 12 or sum(len(dj["nodes"]) for dj in cur["ds"]) > 40:
+            return cur
         changed = True
         while changed:
             changed = False
